@@ -7,6 +7,7 @@ import (
 	"reflect"
 	"sort"
 	"strings"
+	"sync"
 	"time"
 
 	mxj "github.com/clbanning/mxj/v2"
@@ -119,10 +120,37 @@ func (c *Ctx) KnownHit(key, what string) bool {
 
 var curCtx *Ctx
 
+// When the instrumented package starts goroutines of its own (R6 reports `go` statements) the
+// hooks and simulated endpoints can be entered from several goroutines at once: they are then
+// serialised by one mutex, the cooperative lock/Once/Pool replacements are not installed (the
+// package's goroutines must be able to block for real) and runs are no longer replayable
+// bit for bit - the determinism self-check is skipped and the evidence says so.
+var lockHooks bool
+var hookMu sync.Mutex
+
+func simEnter() {
+	if lockHooks {
+		hookMu.Lock()
+	}
+}
+
+func simLeave() {
+	if lockHooks {
+		hookMu.Unlock()
+	}
+}
+
+func initHookLocking() {
+	loadFacts()
+	lockHooks = facts.GoStmts > 0
+}
+
 func installHooks(c *Ctx) {
 	curCtx = c
 	verifsim.H = &verifsim.Hooks{
 		Yield: func(site int) {
+			simEnter()
+			defer simLeave()
 			c.Steps++
 			c.opSteps++
 			if c.opSteps > c.StepLimit {
@@ -133,6 +161,8 @@ func installHooks(c *Ctx) {
 			}
 		},
 		Blocked: func() {
+			simEnter()
+			defer simLeave()
 			c.Steps++
 			c.opSteps++
 			if c.opSteps > c.StepLimit {
@@ -147,58 +177,79 @@ func installHooks(c *Ctx) {
 			panic(stepLimit{})
 		},
 		MapOrder: func(site, n int) []int {
+			simEnter()
+			defer simLeave()
 			if c.mapOrderFn != nil {
 				return c.mapOrderFn(site, n)
 			}
 			return nil
 		},
 		Sleep: func(d time.Duration) {
+			simEnter()
+			defer simLeave()
 			c.VirtualNs += int64(d)
 			c.C["virtual_sleeps"]++
 			c.Event("sleep %d", int64(d))
 		},
 		Open: func(name string) (*verifsim.File, error) {
+			simEnter()
+			defer simLeave()
 			if c.disk == nil {
 				return nil, os.ErrNotExist
 			}
 			return c.disk.Open(name)
 		},
 		Create: func(name string) (*verifsim.File, error) {
+			simEnter()
+			defer simLeave()
 			if c.disk == nil {
 				return nil, os.ErrPermission
 			}
 			return c.disk.Create(name)
 		},
 		Stat: func(name string) (os.FileInfo, error) {
+			simEnter()
+			defer simLeave()
 			if c.disk == nil {
 				return nil, os.ErrNotExist
 			}
 			return c.disk.Stat(name)
 		},
 		RealPath: func(op, name string) (string, error) {
+			simEnter()
+			defer simLeave()
 			if c.disk == nil {
 				return "", os.ErrNotExist
 			}
 			return c.disk.RealPath(op, name)
 		},
 		OpenFile: func(name string, flag int, perm os.FileMode) (*verifsim.File, error) {
+			simEnter()
+			defer simLeave()
 			if c.disk == nil {
 				return nil, os.ErrNotExist
 			}
 			return c.disk.OpenFile(name, flag)
 		},
 		Remove: func(name string) error {
+			simEnter()
+			defer simLeave()
 			if c.disk == nil {
 				return os.ErrNotExist
 			}
 			return c.disk.Remove(name)
 		},
 		Rename: func(o, n string) error {
+			simEnter()
+			defer simLeave()
 			if c.disk == nil {
 				return os.ErrNotExist
 			}
 			return c.disk.Rename(o, n)
 		},
+	}
+	if lockHooks {
+		verifsim.H.Blocked = nil // real locks, Once and Pool: the package's own goroutines must block for real
 	}
 }
 
